@@ -226,6 +226,7 @@ def main(argv=None):
     ap.add_argument("pid")
     ap.add_argument("--tier", default=os.environ.get("VERIF_TIER", "quick"))
     ap.add_argument("--replay")
+    ap.add_argument("--replay-known")
     ap.add_argument("--jobs", type=int, default=int(os.environ.get("VERIF_JOBS", "0")) or (os.cpu_count() or 4))
     ap.add_argument("--only", help="substring filter on case names (debugging)")
     a = ap.parse_args(argv)
@@ -239,6 +240,29 @@ def main(argv=None):
         failed, detail = replay_record(rec)
         print("REPLAY %s: %s" % ("FAILS" if failed else "passes", detail))
         return 1 if failed else 0
+
+    if a.replay_known:
+        k = [x for x in load_known() if x["id"] == a.replay_known][0]
+        if hasattr(mod, "replay_known"):
+            still = mod.replay_known(k)
+        else:
+            from .symx import Pre
+
+            params = dict(k["params"])
+            params["no_skip"] = True
+            fn = mod.build(params, symbolic=False)
+            still = []
+            for w in k["inputs"]:
+                try:
+                    r = fn(w)
+                except Pre:
+                    continue
+                except Exception as e:  # noqa
+                    r = "exception %r" % (e,)
+                if not (r is True or r is None):
+                    still.append(w)
+        print("%d of %d listed inputs still fail: %s" % (len(still), len(k["inputs"]), still[:8]))
+        return 1 if still else 0
 
     t0 = time.time()
     cases = mod.cases(a.tier, seed)
@@ -337,17 +361,16 @@ def main(argv=None):
 
     # ------------------------------------------------------------------ known findings: replay each
     for k in known:
-        rec = dict(k["record"])
-        rec["property"] = pid
-        path = os.path.join(VERIF, "replays", pid, "known-%s.json" % _slug(k["id"]))
-        with open(path, "w") as f:
-            json.dump(rec, f, indent=1)
-        rc, outp = _native_replay(pid, path)
-        if rc in (1, 2):
-            print("KNOWN-FINDING: property=%s %s" % (pid, k["what"]))
+        try:
+            p = subprocess.run([PY, "-m", "vp.run", pid, "--replay-known", k["id"]], cwd=VERIF, capture_output=True, text=True, timeout=REPLAY_WALL_S * 3)
+            rck, outp = p.returncode, (p.stdout + p.stderr)
+        except subprocess.TimeoutExpired:
+            rck, outp = 2, "timeout"
+        if rck in (1, 2):
+            print("KNOWN-FINDING: property=%s %s [%s]" % (pid, k["what"], outp.strip().splitlines()[-1][:200] if outp.strip() else ""))
             known_hit.append(k["id"])
         else:
-            print("note: known finding %s no longer reproduces (%s)" % (k["id"], outp.strip()[-200:]))
+            print("note: known finding %s no longer reproduces (%s)" % (k["id"], outp.strip()[-300:]))
 
     rc = 0
     for path, name, cex, outp in violations:
